@@ -31,6 +31,16 @@ def _variants(prop, renamed_mutants=False):
         out.append(("mutant", m))
     for t in getattr(mod, "TWINS", []):
         out.append(("twin", t))
+    # the confirmed seeded changes of independent sub-agents (DESIGN section 9) are permanent mutants of their property
+    here = os.path.dirname(os.path.dirname(os.path.dirname(os.path.abspath(__file__))))
+    sd = os.path.join(here, "seeded")
+    if os.path.isdir(sd):
+        for sid in sorted(os.listdir(sd)):
+            if sid.split("-")[0] == prop and os.path.exists(os.path.join(sd, sid, "patch.diff")):
+                m = dict(name=f"seeded change {sid}", patch=os.path.join(sd, sid, "patch.diff"), expect=None)
+                out.append(("mutant", m))
+                if renamed_mutants:
+                    out.append(("mutant", dict(m, name=m["name"] + " [on the alpha-renamed package]", rename=True)))
     # every driver must give the clean verdict on the alpha-renamed package, and still see every mutant there
     out.append(("twin", dict(name="alpha-renamed locals (whole package)", rename=True, edits=[])))
     for kind in ("flip", "invert", "kwargs", "aug"):
@@ -70,6 +80,28 @@ def reverse_patch_edits(patch_path, root):
     return edits
 
 
+def _patch_overlay(patch, root):
+    """{rel: patched text} for a unified diff, applied to scratch copies of the touched files (the tree itself is not modified)"""
+    import shutil
+    import subprocess
+    import tempfile
+    files = [l[6:].strip() for l in open(patch) if l.startswith("+++ b/")]
+    tmp = tempfile.mkdtemp(prefix="sa-selftest.")
+    try:
+        for rel in files:
+            src = os.path.join(root, rel)
+            if not os.path.exists(src):
+                return None
+            os.makedirs(os.path.dirname(os.path.join(tmp, rel)), exist_ok=True)
+            shutil.copy(src, os.path.join(tmp, rel))
+        r = subprocess.run(["git", "apply", patch], cwd=tmp, capture_output=True, text=True)
+        if r.returncode:
+            return None
+        return {rel: open(os.path.join(tmp, rel), encoding="utf-8").read() for rel in files}
+    finally:
+        shutil.rmtree(tmp, ignore_errors=True)
+
+
 def _edits(v, root="/repo"):
     if "edits" in v and not v["edits"]:
         return []
@@ -83,7 +115,12 @@ def _edits(v, root="/repo"):
 def run_one(task):
     prop, kind, v, root = task
     overlay = {}
-    for rel, old, new in _edits(v, root):
+    if "patch" in v:
+        ov = _patch_overlay(v["patch"], root)
+        if ov is None:
+            return (prop, kind, v["name"], "skipped", "patch no longer applies to the tree")
+        overlay = ov
+    for rel, old, new in ([] if "patch" in v else _edits(v, root)):
         path = os.path.join(root, rel)
         try:
             src = overlay.get(rel) or open(path, encoding="utf-8").read()
